@@ -71,6 +71,10 @@ CHECKS = {
    "6 schema-version pairs (added fields of several kinds, un-deprecated fields, both) x 13 nesting contexts of the evolved message; both versions are generated and compiled, v2-encoded values (added fields present/absent) are decoded by v1's byte and stream decoders (also chunked); decoded value must equal the harness's restriction of the v2 value to v1's fields, siblings intact, stream position exact",
    "held on ~7500 (pair, context, value, decoder) tuples per quick run; evolution limited to the two operations the statement names; two contexts (struct containing the evolved message, nested again) are recorded known findings on the byte path",
    "runtime monitoring: cross-version differential oracle with an independent restriction model"),
+ "C09": ("exploration",
+   "a third of the matrix cells (half, thorough) + random schemas + a tagged schema generated under a pairwise covering array of the 5 options (all 32, thorough); per (type, option set): all encoders must emit the independent reference bytes - hence identical bytes under every option set - and every decoder entry point, including the Must variants where generated, must map the reference encoding and its map permutations to the value; thorough adds an -asan pass with exactly sized buffers (shared-memory strings)",
+   "held on ~6e4 (type, option set, value) triples per quick run; pairwise coverage of options in quick, full 2^5 in thorough",
+   "runtime monitoring: differential oracle against the reference codec across generator configurations (+ AddressSanitizer build in thorough)"),
 }
 DESIGN = {i: "DESIGN.md section 4, %s" % i for i in CHECKS}
 
